@@ -309,8 +309,19 @@ func genC05(t *rapid.T) c05Case {
 	}
 	body = append(body, mj.Text("|ctx="), mj.Print(mj.Dot()), mj.Text(">"))
 	g.p.Files = []*mj.File{{Path: "/main.jet", Body: body}}
+	if g.n(0, 4, "earlyExit") == 0 {
+		// before anything else a helper template leaves a range early (return in its first iteration):
+		// the loops that follow still run once per element, or take their else branch, as if nothing had happened
+		subj := []string{"mN", "miN", "many", "xs", "ss", "arr"}[g.n(0, 5, "earlyExitSubject")]
+		g.p.Files = append(g.p.Files, &mj.File{Path: "/first.jet", Body: []*mj.Node{{K: "range", Names: []string{"fk", "fv"}, Decl: true, E: mj.Var(subj), Body: []*mj.Node{{K: "return", E: mj.Str("found")}}}}})
+		g.p.Files[0].Body = append([]*mj.Node{mj.Let("found", mj.Call("exec", mj.Str("/first.jet")))}, body...)
+		g.labels["after-a-range-left-by-return:"+subj] = true
+	}
 	c := c05Case{Prog: g.p}
 	c.Src = mj.NewPrinter().File(g.p.Files[0])
+	if len(g.p.Files) > 1 {
+		c.Src += "   with /first.jet: " + mj.NewPrinter().File(g.p.Files[1])
+	}
 	mj.PruneVars(g.p)
 	for k := range g.labels {
 		c.Labels = append(c.Labels, k)
